@@ -26,14 +26,17 @@ def main():
     ap.add_argument('--tier', default='quick')
     ap.add_argument('--checks', default=None, help='comma separated property ids to run (default: the mutation\'s own)')
     ap.add_argument('--skip-confirm', action='store_true')
+    ap.add_argument('--round', default='1')
     a = ap.parse_args()
     base = '/tmp/mut/%s' % a.pid
     wt = base + '/wt'
-    diff = '%s/out/m%s.diff' % (base, a.n)
-    demo = '%s/out/m%s_demo.py' % (base, a.n)
-    meta_in = '%s/out/m%s.json' % (base, a.n)
+    od = 'out' if a.round == '1' else 'out' + a.round
+    tag = 'm' if a.round == '1' else 'r%sm' % a.round
+    diff = '%s/%s/m%s.diff' % (base, od, a.n)
+    demo = '%s/%s/m%s_demo.py' % (base, od, a.n)
+    meta_in = '%s/%s/m%s.json' % (base, od, a.n)
     env = dict(PYTHONPATH=wt, PYTHONHASHSEED='0', MPLBACKEND='Agg')
-    res = dict(property=a.pid, mutation='m%s' % a.n)
+    res = dict(property=a.pid, mutation='%s%s' % (tag, a.n))
     sh(['git', 'checkout', '--', '.'], cwd=wt)
     rc, out = sh(['git', 'status', '--short'], cwd=wt)
     assert out.strip() == '', 'worktree not clean: ' + out
@@ -69,7 +72,7 @@ def main():
     caught = any(c['violation'] for c in res['checks'].values())
     res['caught'] = caught
     print(json.dumps(res, indent=1))
-    d0 = os.path.join(ROOT, 'seeded', '%s-m%s' % (a.pid, a.n), 'meta.json')
+    d0 = os.path.join(ROOT, 'seeded', '%s-%s%s' % (a.pid, tag, a.n), 'meta.json')
     if a.skip_confirm and os.path.exists(d0):
         meta = json.load(open(d0))
         meta.setdefault('reruns', []).append(dict(note=os.environ.get('MUT_NOTE', 're-run after the check was strengthened'),
@@ -77,7 +80,7 @@ def main():
         meta['caught'] = meta.get('caught') or caught
         json.dump(meta, open(d0, 'w'), indent=1)
     if confirmed and not a.skip_confirm:
-        d = os.path.join(ROOT, 'seeded', '%s-m%s' % (a.pid, a.n))
+        d = os.path.join(ROOT, 'seeded', '%s-%s%s' % (a.pid, tag, a.n))
         os.makedirs(d, exist_ok=True)
         shutil.copy(diff, os.path.join(d, 'patch.diff'))
         shutil.copy(demo, os.path.join(d, 'demo.py'))
